@@ -13,6 +13,28 @@ enum T {
     Local(LocalHistogramTimer),
 }
 
+/// A local histogram: taken from the shared histogram itself, or the cached child of a local histogram VECTOR (the shared
+/// histogram then is the child "x" of a HistogramVec).
+enum Loc {
+    H(LocalHistogram),
+    V(prometheus::local::LocalHistogramVec),
+}
+
+impl Loc {
+    fn hist(&mut self) -> &LocalHistogram {
+        match self {
+            Loc::H(l) => l,
+            Loc::V(v) => v.with_label_values(&["x"]),
+        }
+    }
+    fn flush(&mut self) {
+        match self {
+            Loc::H(l) => l.flush(),
+            Loc::V(v) => v.flush(),
+        }
+    }
+}
+
 #[derive(Clone, Copy, Debug)]
 enum End {
     ObserveDuration,
@@ -126,7 +148,8 @@ impl Property for C18 {
         "case = history of 3-25 operations over one Histogram and up to 2 LocalHistograms: start a shared / local timer on the precise or the coarse clock (<=5 alive), \
          end a chosen live timer by observe_duration / stop_and_record / stop_and_discard / drop (plain, or by the unwinding of a caught panic), on this thread or after moving \
          it to a freshly spawned thread (joined at once), observe_closure_duration / observe_closure_duration_coarse on the shared or a local histogram (the closure optionally observes / times / reads the same histogram), local flush / \
-         clear / drop, create local. Oracle: count model (shared count and every local's pending count after every operation; +1 \
+         clear / drop, create local (a quarter of the histories run on the child of a HistogramVec: local histograms may then be the cached children of local \
+         vectors, and one of these may remove the label values, which flushes what it holds). Oracle: count model (shared count and every local's pending count after every operation; +1 \
          exactly for record/drop, +0 for discard; a local timer's observation reaches the shared histogram when the timer dies), \
          returned durations finite and >= 0 (a final stage holds 28 timers of every flavour for 120 ms - four of them for 1.1 s -, staggered over more than a second, and requires the recorded duration to lie within the measured lifetime +- 30 ms), and the shared sample sum grows by exactly the returned duration; a fifth of the histories run on a histogram with 47 bounds (10 ns x 1.5^k) where the duration \
          returned by stop_and_record must be counted under exactly the bounds not smaller than it. Non-trivial: >=3 \
@@ -189,8 +212,16 @@ impl Property for C18 {
             use prometheus::core::Metric;
             hist.metric().get_histogram().get_bucket().iter().map(|b| b.cumulative_count()).collect()
         };
-        let hist = Histogram::with_opts(HistogramOpts::new("t", "h").buckets(bounds.clone())).unwrap();
-        let mut locals: Vec<Option<LocalHistogram>> = vec![];
+        // a quarter of the histories run on the child "x" of a HistogramVec, and local histograms may then be the cached children of
+        // local vectors - until one of them removes the label values (the handle stays usable, the vector is left alone from then on)
+        let from_vec = src.chance(64);
+        let vec = prometheus::HistogramVec::new(HistogramOpts::new("t", "h").buckets(bounds.clone()), &["l"]).unwrap();
+        let mut vec_alive = from_vec;
+        let hist = if from_vec { vec.with_label_values(&["x"]) } else { Histogram::with_opts(HistogramOpts::new("t", "h").buckets(bounds.clone())).unwrap() };
+        if from_vec {
+            rep.class("histogram-is-a-vector-child");
+        }
+        let mut locals: Vec<Option<Loc>> = vec![];
         let mut pending: Vec<u64> = vec![];
         let mut shared_count: u64 = 0;
         let mut timers: Vec<(usize, T)> = vec![]; // (creation number, timer)
@@ -226,7 +257,7 @@ impl Property for C18 {
                     if timers.len() < 5 && !live.is_empty() {
                         let li = live[src.below(live.len())];
                         let coarse = src.chance(64);
-                        let l = locals[li].as_ref().unwrap();
+                        let l = locals[li].as_mut().unwrap().hist();
                         timers.push((created, T::Local(if coarse { l.start_coarse_timer() } else { l.start_timer() })));
                         created += 1;
                         if coarse {
@@ -276,7 +307,7 @@ impl Property for C18 {
                         let li = live[src.below(live.len())];
                         // the closure may itself use the histogram it is timed on
                         let body = src.below(5);
-                        let l = locals[li].as_ref().unwrap();
+                        let l = locals[li].as_mut().unwrap().hist();
                         let coarse = src.chance(64);
                         let f = |g: &mut dyn FnMut() -> u8| if coarse { l.observe_closure_duration_coarse(|| g()) } else { l.observe_closure_duration(|| g()) };
                         let r = f(&mut || {
@@ -337,16 +368,22 @@ impl Property for C18 {
                 }
                 12 => {
                     if locals.iter().filter(|l| l.is_some()).count() < 2 {
-                        locals.push(Some(hist.local()));
+                        if vec_alive && src.chance(150) {
+                            locals.push(Some(Loc::V(vec.local())));
+                            rep.class("local-histogram-from-a-local-vector");
+                            log.push(format!("new L{}(local vector)", locals.len() - 1));
+                        } else {
+                            locals.push(Some(Loc::H(hist.local())));
+                            log.push(format!("new L{}", locals.len() - 1));
+                        }
                         pending.push(0);
-                        log.push(format!("new L{}", locals.len() - 1));
                     }
                 }
                 13 => {
                     let live: Vec<usize> = locals.iter().enumerate().filter(|(_, l)| l.is_some()).map(|(i, _)| i).collect();
                     if !live.is_empty() {
                         let li = live[src.below(live.len())];
-                        locals[li].as_ref().unwrap().flush();
+                        locals[li].as_mut().unwrap().flush();
                         shared_count += pending[li];
                         if pending[li] > 0 {
                             may_grow = true;
@@ -359,8 +396,37 @@ impl Property for C18 {
                     let live: Vec<usize> = locals.iter().enumerate().filter(|(_, l)| l.is_some()).map(|(i, _)| i).collect();
                     if !live.is_empty() {
                         let li = live[src.below(live.len())];
-                        if src.chance(128) {
-                            locals[li].as_ref().unwrap().clear();
+                        if matches!(locals[li], Some(Loc::V(_))) && vec_alive && src.chance(100) {
+                            // removing the label values through the local vector drops (and so flushes) the cached local histogram and
+                            // removes the child from the shared vector; the handle `hist` keeps reading that child
+                            if let Some(Loc::V(v)) = locals[li].as_mut() {
+                                if let Err(e) = v.remove_label_values(&["x"]) {
+                                    return fail("valid-removal-refused", format!("{} ;; {}", e, log.join(" ")));
+                                }
+                            }
+                            vec_alive = false;
+                            locals[li] = None;
+                            shared_count += pending[li];
+                            if pending[li] > 0 {
+                                may_grow = true;
+                            }
+                            pending[li] = 0;
+                            rep.class("label-values-removed-through-the-local-vector");
+                            log.push(format!("L{}.remove_label_values", li));
+                            // other local vectors would create a NEW child "x" on their next first touch: none is left alive
+                            for (lj, l) in locals.iter_mut().enumerate() {
+                                if matches!(l, Some(Loc::V(_))) {
+                                    *l = None;
+                                    shared_count += pending[lj];
+                                    if pending[lj] > 0 {
+                                        may_grow = true;
+                                    }
+                                    pending[lj] = 0;
+                                    log.push(format!("drop L{}", lj));
+                                }
+                            }
+                        } else if src.chance(128) {
+                            locals[li].as_mut().unwrap().hist().clear();
                             pending[li] = 0;
                             log.push(format!("L{}.clear", li));
                         } else {
@@ -392,12 +458,13 @@ impl Property for C18 {
                     format!("step {}: the shared histogram has {} observations, the model says {} ;; history: {}", step, got, shared_count, log.join(" ")),
                 );
             }
-            for (li, l) in locals.iter().enumerate() {
+            for (li, l) in locals.iter_mut().enumerate() {
                 if let Some(l) = l {
-                    if l.get_sample_count() != pending[li] {
+                    let held = l.hist().get_sample_count();
+                    if held != pending[li] {
                         return fail(
                             "local-pending-count-mismatch",
-                            format!("step {}: local L{} holds {} pending observations, the model says {} ;; history: {}", step, li, l.get_sample_count(), pending[li], log.join(" ")),
+                            format!("step {}: local L{} holds {} pending observations, the model says {} ;; history: {}", step, li, held, pending[li], log.join(" ")),
                         );
                     }
                 }
